@@ -80,6 +80,7 @@ theorem copyFd_spec (o : Oracle W) (w : W) (t : FdTable) (src : DupSrc) (input :
   cases src with
   | closeIt => exact .inl ⟨_, rfl, .closed⟩
   | malformed => exact .inr ⟨_, rfl, Equiv.refl _⟩
+  | negOne => exact .inr ⟨_, rfl, Equiv.refl _⟩
   | fd n =>
     simp only
     cases hg : t.get n with
